@@ -23,8 +23,8 @@ def run(prop, tier):
         json.dump(reps, open(os.environ["C09_DUMP"], "w"), default=str)
     v.absorb(reps, known)
     evals = sum(r.get("obligations", 0) for r in reps)
-    v.extra["evaluations"] = evals
-    v.extra["distinct_nontrivial"] = evals
+    v.extra["evaluations"] = sum((r.get("kinds") or {}).get("candidates", 0) for r in reps)
+    v.extra["distinct_nontrivial"] = evals      # distinct accepted encodings (deduplicated per unit by their consumed bytes)
     v.extra["exhaustive"] = False
     v.bounded = [dict(part="Assembler.assemble round trip", bound=f"prefixes {[hex(p) if p else None for p in pres]} x 241 opcodes x every selector/mode byte x 4 operand tails + every named internal register",
                       note="structure enumerated through the real decoder; operand values sampled")]
